@@ -10,6 +10,7 @@ From TV Require Import Proofs.LexEquivBase Proofs.LexEquivTrivia Proofs.LexEquiv
                        Proofs.PrintBackSort Proofs.PrintBackEnts Proofs.PrintBackDisplay Proofs.PrintBackSecs Proofs.PrintBackState
                        Proofs.PrintBackHKey Proofs.PrintBackFinal Proofs.PrintBackSecDoc
                        Proofs.PrintBackDVals Proofs.PrintBackDAll Proofs.PrintBackDState Proofs.PrintBackDKey Proofs.PrintBackIValue Proofs.PrintBackDItems.
+From TV Require Import Proofs.TilingNormScan Proofs.TilingNormStr Proofs.TilingNormTok Proofs.TilingCmt.
 From TV Require Proofs.DefsEquivSim Proofs.GrammarDocComplete.
 Require Import Lia ZifyBool ZifyN ZifyNat Sorting.Sorted Sorting.Permutation.
 
@@ -123,8 +124,10 @@ Section DDoc.
 
   (* ---- the invariant ------------------------------------------------------------------------------------------------ *)
   Definition at_start (i0 : input) : Prop := rest i0 = [] \/ lstart s (N.to_nat (pos i0)).
+  (* the pending text is made of complete lines and blanks (unless the document ends in it) *)
+  Definition pend_ok (i : input) (pend : bytes) : Prop := rest i = [] \/ exists cp, cj anyf (ncr pend) cp.
 
-  Definition dinv (st : pstate) (i : input) (out : bytes) (i0 : input) (pend : bytes) : Prop :=
+  Definition dinv0 (st : pstate) (i : input) (out : bytes) (i0 : input) (pend : bytes) : Prop :=
     exists items : list sitem,
       uk2 K (st_root st) /\ uk2 K (st_current st) /\ t_dotted (st_current st) = false /\ t_implicit (st_current st) = false /\
       (match pop_key (st_path st) with
@@ -139,20 +142,26 @@ Section DDoc.
       Forall (sitem_ok s) items /\ StronglySorted N.lt (map (fun it : sitem => ppos (fst it)) items)
       /\ Forall (fun it : sitem => (ppos (fst it) < pos i0)%N) items
       /\ out = concat (map snd items)
-      /\ st_trailing st = Some (pos i0, pos i) /\ isrc s i0 /\ splits i0 pend i /\ at_start i0.
+      /\ st_trailing st = Some (pos i0, pos i) /\ isrc s i0 /\ splits i0 pend i /\ at_start i0
+      /\ Forall (sitem_cj s) items.
+
+  Definition dinv (st : pstate) (i : input) (out : bytes) (i0 : input) (pend : bytes) : Prop :=
+    dinv0 st i out i0 pend /\ pend_ok i pend.
 
   Lemma dinv_on_ws st i out i0 pend w i1 :
-    dinv st i out i0 pend -> splits i w i1 -> dinv (on_ws st (pos i, pos i1)) i1 out i0 (pend ++ w).
+    dinv0 st i out i0 pend -> splits i w i1 -> dinv0 (on_ws st (pos i, pos i1)) i1 out i0 (pend ++ w).
   Proof.
-    intros (items & H1 & H2 & H3 & H4 & H5 & H6 & H7 & H8 & H9 & Ht & Hi0 & Sp & Hst) Sw. exists items.
+    intros (items & H1 & H2 & H3 & H4 & H5 & H6 & H7 & H8 & H9 & Ht & Hi0 & Sp & Hst & Hcj) Sw. exists items.
     unfold on_ws. cbn [st_root st_path st_current st_trailing st_position st_is_array]. rewrite Ht. cbn [fst snd].
-    repeat (split; [assumption|]). split; [reflexivity|]. split; [exact Hi0|]. split; [exact (splits_trans _ _ _ _ _ Sp Sw)|exact Hst].
+    repeat (split; [assumption|]). split; [reflexivity|]. split; [exact Hi0|]. split; [exact (splits_trans _ _ _ _ _ Sp Sw)|]. auto.
   Qed.
 
   Lemma dinv_trivia st i out i0 pend x j w i1 :
-    dinv st i out i0 pend -> splits i x j -> splits j w i1 ->
+    dinv st i out i0 pend -> splits i x j -> splits j w i1 -> pend_ok i1 (pend ++ x ++ w) ->
     dinv (on_ws (on_ws st (pos i, pos j)) (pos j, pos i1)) i1 out i0 (pend ++ x ++ w).
-  Proof. intros HI Sx Sw. rewrite app_assoc. apply dinv_on_ws; [|exact Sw]. apply dinv_on_ws; assumption. Qed.
+  Proof.
+    intros [HI _] Sx Sw Hpo. split; [|exact Hpo]. rewrite app_assoc. apply dinv_on_ws; [|exact Sw]. apply dinv_on_ws; assumption.
+  Qed.
 
   (* ---- key = value -------------------------------------------------------------------------------------------------- *)
   Lemma merged_prefix_eq st i i0 k j0 :
@@ -187,9 +196,10 @@ Section DDoc.
     (vok s v = true -> forall ks P z, pre_text s ks (with_prefix k P) = pre ->
        dline s (ks ++ [with_prefix k P], v) ++ z = raw_encode (traw s P) [] ++ body ++ [x0a] ++ z) ->
     isrc s j1 -> (pos ja < pos j1)%N -> at_start j1 -> splits j1 w i1 ->
+    forall B0 ct, body = (pre ++ R) ++ B0 -> cj anyf (B0 ++ [x0a]) ct -> (forall z, qstop ((B0 ++ [x0a]) ++ z)) -> ws_tok w ->
     dinv (on_ws st0 (pos j1, pos i1)) i1 (out ++ ncr pend ++ w0 ++ body ++ [x0a]) j1 w.
   Proof.
-    intros (items & Hur & Huc & Hdot & Himp & Hpath & Hok & Hsort & Hlt & Eout & Ht & Hi0 & Sp & Hst) Eo Hj0 S0 Hw0 Hw1 Rj HK Erepr Eja Hne Eleaf S1 Hjb Epre ER Hline Hj1 Hlt1 Hst1 Sw.
+    intros [(items & Hur & Huc & Hdot & Himp & Hpath & Hok & Hsort & Hlt & Eout & Ht & Hi0 & Sp & Hst & Hcj) Hpo] Eo Hj0 S0 Hw0 Hw1 Rj HK Erepr Eja Hne Eleaf S1 Hjb Epre ER Hline Hj1 Hlt1 Hst1 Sw B0 ct Ebody HB0 HqB Hw.
     apply Forall_app in HK as [HKp HKk]. assert (HKk0 : K k) by (inversion HKk; assumption).
     destruct (on_keyval_all K st path k v st0 Eo Huc HKp) as (Er' & Ep' & Eq' & Ea' & Et' & Hfr & Huc' & Hperm).
     set (k' := with_prefix k (merged_prefix st k)) in *.
@@ -224,6 +234,31 @@ Section DDoc.
       pose proof (Hline Hv ks (merged_prefix st k) [] Eks') as El.
       rewrite !app_nil_r in El. fold k' in El. rewrite El, HP. unfold txt. rewrite <- !app_assoc. reflexivity. }
     assert (Hppos : ppos (PL k' v) = pos ja) by (apply (ppos_line k' v ja jb); [exact Erepr|exact Hne]).
+    assert (Hitemc : sitem_cj s (PL k' v, txt)).
+    { cbn [sitem_cj]. intro Hv.
+      assert (HR : exists b t', R = b :: t').
+      { pose proof (krepr_tok s k (hkey_lkey s k HKk0)) as Hs. rewrite <- ER in Hs. destruct (simple_key_khead _ _ Hs) as (b & t' & -> & _). eauto. }
+      assert (Hcp : exists cp, cj anyf (ncr pend) cp).
+      { destruct Hpo as [Hr | H]; [|exact H]. exfalso. destruct S0 as [R0 _]. rewrite Hr in R0. destruct w0; [|discriminate]. cbn [app] in R0.
+        rewrite <- R0 in Rj. destruct HR as (b & t' & ->). destruct pre; discriminate. }
+      destruct Hcp as (cp & Hcp).
+      assert (Elead : line_lead s k' = ncr pend ++ w0).
+      { unfold line_lead, k', with_prefix. rewrite tkey_fields. unfold decor_prefix, tdecor. cbn [set_leaf k_leaf d_prefix toraw].
+        rewrite (raw_encode_traw s _ _ []). exact HP. }
+      assert (Hqk : qt CS qstop (pre ++ R)).
+      { destruct (pre_shape s path k HKp (hkey_lkey s k HKk0)) as (tt & Htt & Ett). rewrite <- Epre, <- ER in Ett. rewrite Ett. apply (qt_key _ _ Htt). }
+      assert (Erest : line_rest s k' v = B0 ++ [x0a]).
+      { assert (Eks' : pre_text s path (with_prefix k (merged_prefix st k)) = pre) by (rewrite pre_text_with_prefix; symmetry; exact Epre).
+        pose proof (Hline Hv path (merged_prefix st k) [] Eks') as El. rewrite !app_nil_r in El. fold k' in El.
+        unfold dline in El. cbn [fst snd] in El. rewrite enc_split in El. fold (line_lead s k') in El. rewrite Elead, <- HP in El.
+        fold k' in Eks'. rewrite Eks' in El. change (krepr s k') with (krepr s k) in El. rewrite <- ER, Ebody in El.
+        unfold line_rest. rewrite <- !app_assoc in El. do 3 apply app_inv_head in El. rewrite <- ?app_assoc. rewrite <- ?app_assoc in El. exact El. }
+      exists (cp ++ []), ct. rewrite Elead, Erest.
+      split; [apply cjx_app_any; [exact Hcp|apply cj_ws, Hw0]|]. split; [exact HB0|]. split; [exact HqB|].
+      unfold txt. rewrite Ebody. replace (((pre ++ R) ++ B0) ++ [x0a]) with ((pre ++ R) ++ (B0 ++ [x0a])) by (rewrite <- !app_assoc; reflexivity).
+      apply cjx_app_any; [apply cjx_app_any; [exact Hcp|apply cj_ws, Hw0]|].
+      change ct with ([] ++ ct). apply (cjx_app false qstop anyf); [apply (cj_qt CS), Hqk|exact HB0|intros z _; apply HqB]. }
+    split; [|right; exists []; rewrite (ncr_ws w Hw); apply cj_ws, Hw].
     exists (items ++ [(PL k' v, txt)]).
     unfold on_ws. cbn [st_root st_path st_current st_trailing st_position st_is_array]. rewrite Er', Ep', Ea', Et'.
     destruct Hfr as (F1 & F2 & F3 & F4 & F5).
@@ -242,7 +277,8 @@ Section DDoc.
       - eapply Forall_impl; [|exact Hlt]. intros it Hit. cbn beta in Hit. lia.
       - constructor; [|constructor]. cbn [fst]. rewrite Hppos. exact Hlt1. }
     split; [rewrite map_app, concat_app; cbn [map concat snd]; rewrite app_nil_r, Eout; unfold txt; rewrite <- !app_assoc; reflexivity|].
-    split; [reflexivity|]. split; [exact Hj1|]. split; [exact Sw|exact Hst1].
+    split; [reflexivity|]. split; [exact Hj1|]. split; [exact Sw|]. split; [exact Hst1|].
+    apply Forall_app; split; [exact Hcj|constructor; [exact Hitemc|constructor]].
   Qed.
 
   (* ---- the end of a section ------------------------------------------------------------------------------------------ *)
@@ -254,11 +290,12 @@ Section DDoc.
       /\ Forall (sitem_ok s) items /\ StronglySorted N.lt (map (fun it : sitem => ppos (fst it)) items)
       /\ Forall (fun it : sitem => (ppos (fst it) < pos i0)%N) items
       /\ out = concat (map snd items)
-      /\ st_trailing st = Some (pos i0, pos i) /\ isrc s i0 /\ splits i0 pend i /\ at_start i0.
+      /\ st_trailing st = Some (pos i0, pos i) /\ isrc s i0 /\ splits i0 pend i /\ at_start i0
+      /\ Forall (sitem_cj s) items.
 
-  Lemma dinv_finalize st i out i0 pend stf : dinv st i out i0 pend -> finalize_table st = COk stf -> dfin st stf out i i0 pend.
+  Lemma dinv_finalize st i out i0 pend stf : dinv0 st i out i0 pend -> finalize_table st = COk stf -> dfin st stf out i i0 pend.
   Proof.
-    intros (items & Hur & Huc & Hdot & Himp & Hpath & Hok & Hsort & Hlt & Eout & Ht & Hi0 & Sp & Hst) Hf. exists items.
+    intros (items & Hur & Huc & Hdot & Himp & Hpath & Hok & Hsort & Hlt & Eout & Ht & Hi0 & Sp & Hst & Hcj) Hf. exists items.
     destruct (pop_key (st_path st)) as [[ppath k]|] eqn:Ep.
     - destruct Hpath as (P1 & P2 & P3 & P4 & P5 & P6 & P7).
       destruct (finalize_all K st stf ppath k Ep Hf Hur Huc P1 P2 P3) as (Estf & (F1 & F2 & F3 & F4 & F5) & Hur' & Hperm).
@@ -275,12 +312,15 @@ Section DDoc.
     on_header arr st kp (pos j, pos jt) (pos i, pos j) = COk st1 ->
     hdr_at s (pos i) arr Y -> Forall K kp -> kp <> [] -> isrc s j -> splits j (w ++ c) jt -> ws_tok w -> opt_comment c ->
     isrc s jl -> (pos i < pos jl)%N -> at_start jl -> splits jl w' i1 ->
+    rest i <> [] -> qt CS qstop (hdr_open arr ++ Y ++ hdr_close arr) -> ws_tok w' ->
     dinv (on_ws st1 (pos jl, pos i1)) i1 (out ++ ncr pend ++ (hdr_open arr ++ Y ++ hdr_close arr) ++ (w ++ c) ++ [x0a]) jl w'.
   Proof.
-    intros HI Hi Hh Hat HK Hne Hj Swc Hw Hc Hjl Hltl Hstl Sw'.
+    intros [HI Hpo] Hi Hh Hat HK Hne Hj Swc Hw Hc Hjl Hltl Hstl Sw' Hri HqY Hw'.
+    split; [|right; exists []; rewrite (ncr_ws w' Hw'); apply cj_ws, Hw'].
+    destruct Hpo as [Hr | (cp & Hcp)]; [congruence|].
     unfold on_header in Hh. destruct kp as [|k0 kp0] eqn:Ekp; [congruence|]. rewrite <- Ekp in *. clear Ekp k0 kp0.
     destruct (finalize_table st) as [stf| |] eqn:Ef; try discriminate.
-    destruct (dinv_finalize st i out i0 pend stf HI Ef) as (items & Estf & Hur & Hrd & Hdec & Hpos & Hperm & Hok & Hsort & Hlt & Eout & Htr & Hi0 & Sp & Hst).
+    destruct (dinv_finalize st i out i0 pend stf HI Ef) as (items & Estf & Hur & Hrd & Hdec & Hpos & Hperm & Hok & Hsort & Hlt & Eout & Htr & Hi0 & Sp & Hst & Hcj).
     unfold take_trailing in Hh. cbv zeta beta iota in Hh.
     set (st2 := mkState (st_root stf) None (st_position stf) (st_current stf) (st_is_array stf) (st_path stf)) in *.
     set (lead := match st_trailing stf with Some sp => raw_with_span sp | None => REmpty end) in *.
@@ -296,6 +336,13 @@ Section DDoc.
     set (txt := raw_encode (traw s lead) [] ++ (hdr_open arr ++ Y ++ hdr_close arr) ++ raw_encode (traw s trail) [] ++ [x0a]).
     assert (Hitem : sitem_ok s (xh, txt)) by (cbn [sitem_ok]; exists (pos i), q, lead, trail, Y; auto).
     assert (Hpi : (pos i0 <= pos i)%N) by (pose proof (splits_pos _ _ _ Sp); lia).
+    assert (Hitemc : sitem_cj s (xh, txt)).
+    { cbn [sitem_cj xh]. unfold pre_raw, suf_raw. cbn [decor_new d_prefix d_suffix].
+      destruct (cj_trail w c Hw Hc) as (ct & Hct & Hqt). exists cp, ct. rewrite Elead, Etrail.
+      split; [exact Hcp|]. split; [exact Hct|]. split; [exact Hqt|]. unfold txt. rewrite Elead, Etrail.
+      apply cjx_app_any; [exact Hcp|]. change ct with ([] ++ ct). Show.
+      apply (cjx_app false qstop anyf); [apply (cj_qt CS), HqY|exact Hct|intros z _; apply Hqt]. }
+    assert (Hcj' : Forall (sitem_cj s) (items ++ [(xh, txt)])) by (apply Forall_app; split; [exact Hcj|constructor; [exact Hitemc|constructor]]).
     exists (items ++ [(xh, txt)]).
     assert (Hcommon : Forall (sitem_ok s) (items ++ [(xh, txt)])
                       /\ StronglySorted N.lt (map (fun it : sitem => ppos (fst it)) (items ++ [(xh, txt)]))
